@@ -40,6 +40,28 @@ SEEDS = {
               ["./share/shwap/p2p/bitswap/"], ["-run", "TestDemo_GetSamples", "./share/shwap/p2p/bitswap/"]),
     "C06-2": ("C06/change2", "C06", [("demo/eds_retry_demo_test.go", "share/shwap/p2p/shrex/shrex_getter/eds_retry_demo_test.go")],
               ["./share/shwap/p2p/shrex/"], ["-run", "TestDemo_GetEDS", "./share/shwap/p2p/shrex/shrex_getter/"]),
+    "C01-1": ("C01/change1", "C01", [("demo/c01_range_reslice_test.go", "share/shwap/c01_range_reslice_test.go")],
+              ["./share/shwap/"], ["-run", "TestC01RangeReslicedAcrossRows", "./share/shwap/"]),
+    "C03-1": ("C03/change1", "C03", [("demo/c03_empty_response_test.go", "share/availability/light/c03_empty_response_test.go")],
+              ["./share/availability/light/"], ["-run", "TestC03NothingRetrievedIsNotAvailable", "./share/availability/light/"]),
+    "C03-2": ("C03/change2", "C03", [("demo/c03_forged_sample_test.go", "share/availability/light/c03_forged_sample_test.go")],
+              ["./share/availability/light/"], ["-run", "TestC03ForgedSamplesNeverBecomeSampled", "./share/availability/light/"]),
+    "C09-1": ("C09/change1", "C09", [("demo/server_accessor_release_demo_test.go", "share/shwap/p2p/shrex/server_accessor_release_demo_test.go")],
+              ["./share/shwap/p2p/shrex/"], ["-run", "TestDemo_ServerReleasesAccessorOnOversizedRange", "./share/shwap/p2p/shrex/"]),
+    "C09-2": ("C09/change2", "C09", [("demo/sample_then_row_demo_test.go", "share/shwap/p2p/shrex/sample_then_row_demo_test.go")],
+              ["./share/eds/", "./share/shwap/p2p/shrex/"], ["-run", "TestDemo_RowAndEDSAfterSample", "./share/shwap/p2p/shrex/"]),
+    "C10-1": ("C10/change1", "C10", [("demo/c10_change1_demo_test.go", "share/shwap/p2p/bitswap/c10_change1_demo_test.go")],
+              ["./share/shwap/p2p/bitswap/"], ["-run", "TestC10_ForgedSampleRedelivered|TestC10_GetterNeverReturnsForgedSamples", "./share/shwap/p2p/bitswap/"]),
+    "C10-2": ("C10/change2", "C10", [("demo/c10_change2_demo_test.go", "share/shwap/p2p/bitswap/c10_change2_demo_test.go")],
+              ["./share/shwap/p2p/bitswap/"], ["-run", "TestC10_ConcurrentFetchSameIdentifier", "./share/shwap/p2p/bitswap/"]),
+    "C14-1": ("C14/change1", "C14", [("demo/c14_window_slowchain_test.go", "pruner/c14_window_slowchain_test.go")],
+              ["./pruner/..."], ["-run", "TestC14_SlowChainFirstBatchRespectsWindow", "./pruner/"]),
+    "C14-2": ("C14/change2", "C14", [("demo/c14_ondelete_race_test.go", "pruner/c14_ondelete_race_test.go")],
+              ["./pruner/..."], ["-run", "TestC14_OnDeleteConcurrentWithCycleKeepsCheckpointMonotonic", "./pruner/"]),
+    "C20-1": ("C20/change1", "C20", [("demo/subscribe_retry_gap_demo_test.go", "blob/subscribe_retry_gap_demo_test.go")],
+              ["./blob/"], ["-run", "TestSubscribeDemo_TransientFailureMustNotSkipHeight", "./blob/"]),
+    "C20-2": ("C20/change2", "C20", [("demo/subscribe_overflow_demo_test.go", "blob/subscribe_overflow_demo_test.go")],
+              ["./blob/"], ["-run", "TestSubscribeDemo_SlowReaderWithinBufferIsNotDropped", "./blob/"]),
     "C08-1": ("C08/change1", "C08", [("demo/store/cache/c08_getorload_demo_test.go", "store/cache/c08_getorload_demo_test.go")],
               ["./store/..."], ["-run", "TestC08", "./store/cache/"]),
     "C08-2": ("C08/change2", "C08", [("demo/store/c08_cached_get_remove_deadlock_demo_test.go", "store/c08_cached_get_remove_deadlock_demo_test.go")],
@@ -50,7 +72,7 @@ SEEDS = {
 def sh(cmd, cwd, timeout=1500):
     t0 = time.time()
     try:
-        r = subprocess.run(cmd, cwd=cwd, env=ENV, stdout=subprocess.PIPE, stderr=subprocess.STDOUT, text=True, timeout=timeout)
+        r = subprocess.run(cmd, cwd=cwd, env=ENV, stdout=subprocess.PIPE, stderr=subprocess.STDOUT, text=True, errors="replace", timeout=timeout)
         return r.returncode, r.stdout, time.time() - t0
     except subprocess.TimeoutExpired as e:
         return 124, (e.stdout or "") + "\nTIMEOUT", time.time() - t0
